@@ -549,7 +549,30 @@ func GenExposureWorld(t *rapid.T) *World {
 	if rapid.IntRange(0, 4).Draw(t, "isons") == 0 {
 		addIsolatedNamespace(t, w)
 	}
+	if rapid.IntRange(0, 11).Draw(t, "sealed") == 0 {
+		SealWorld(t, w)
+	}
 	return w
+}
+
+// SealWorld replaces the NetworkPolicies by one policy per namespace that governs both directions of every pod and
+// names only IP blocks: every workload is protected, nothing is exposed to potential peers (the exposure section of a
+// report is empty) while the connectivity section still has IP-range lines.
+func SealWorld(t *rapid.T, w *World) {
+	seen := map[string]bool{}
+	w.NPs = nil
+	for _, x := range w.Workloads {
+		if seen[x.Ns] {
+			continue
+		}
+		seen[x.Ns] = true
+		p := NetPol{Ns: x.Ns, Name: "np-sealed", PolicyTypes: []string{"Ingress", "Egress"}}
+		p.Ingress = []Rule{{Peers: []Peer{{IPBlock: &IPBlock{CIDR: "10.0.0.0/8"}}}, Ports: []PPort{{PortNum: 80}}}}
+		if rapid.Bool().Draw(t, "sealeg"+x.Ns) {
+			p.Egress = []Rule{{Peers: []Peer{{IPBlock: &IPBlock{CIDR: "0.0.0.0/0", Except: []string{"10.1.2.0/24"}}}}}}
+		}
+		w.NPs = append(w.NPs, p)
+	}
 }
 
 // addIsolatedNamespace adds a namespace whose only workload has no connection at all (its policy admits only peers of a
